@@ -180,7 +180,7 @@ func ruleFileLoader(c *Ctx, prefix string, fn *ssa.Function, v6 bool) {
 			hdr = h
 		}
 	}
-	line := `conv<string>\(bytes\.Split(@(?:[\w$]+·)?t\d+)?\(os\.ReadFile(@(?:[\w$]+·)?t\d+)?\(\$0\)#0,[^)]*\)\[\(φ(?:[\w$]+·)?t\d+ \+ 1\)\]\)`
+	line := `conv<string>\(bytes\.Split(@(?:[\w$]+·)?t\d+)?\(os\.ReadFile(@(?:[\w$]+·)?t\d+)?\(\$0\)#0,[^)]*\)\[` + idxRe + `\]\)`
 	fields := `strings\.Fields(@(?:[\w$]+·)?t\d+)?\(` + line + `\)`
 	iters, nIns := 0, 0
 	ex.Hooks.Label = func(st *State, in ssa.Instruction) string {
@@ -252,7 +252,7 @@ func ruleFileLoader(c *Ctx, prefix string, fn *ssa.Function, v6 bool) {
 		mapN, _ := ex.NilState(st, ret.Results[0])
 		if errN == 1 {
 			nS++
-			if _, ok := ex.Resolve(st, ret.Results[0]).(*ssa.MakeMap); !ok {
+			if _, ok := ex.ResolveDeep(st, ret.Results[0]).(*ssa.MakeMap); !ok {
 				aon = append(aon, "success return does not return the freshly built map")
 			}
 			if info.LoopOf[hdr][in.Block().Index] {
@@ -357,9 +357,9 @@ func ruleFileLookup(c *Ctx, prefix string, fn *ssa.Function, v6 bool, g *ssa.Glo
 			return
 		}
 		found, _ := histFact(st, "bool", regexp.MustCompile(`^lookup@(?:[\w$]+·)?t\d+\(`+reQ(g.String())+`,.*\)#1$`))
-		r0 := ex.Resolve(st, ret.Results[0])
+		r0 := ex.ResolveDeep(st, ret.Results[0])
 		stop := false
-		if k, ok := ex.Resolve(st, ret.Results[1]).(*ssa.Const); ok && constStr(k) == "true" {
+		if k, ok := ex.ResolveDeep(st, ret.Results[1]).(*ssa.Const); ok && constStr(k) == "true" {
 			stop = true
 		}
 		if isNilConst(r0) {
